@@ -205,9 +205,15 @@ class TwinRun:
                 got = reqs.get(ns, [])
                 d = dict(detail, process=ns, predicted=want, requested=got,
                          all_requests={k: v for k, v in reqs.items()})
-                if len(got) > 1:
+                all_placed = all(q['running_identifiers'] or q['state'] == 'STOPPED' for q in pred)
+                if len(got) > 1 and all_placed:
                     out.append(Violation('C19', 'requested-twice', d, oa['t_us'], 'real-start-requested-twice'))
-                elif want and not got:
+                    continue
+                if len(got) > 1:
+                    # a process that cannot be placed is a starting failure: the failure strategies of the application
+                    # (stop, restart) legitimately ask again later; the placement is the first request
+                    got = got[:1]
+                if want and not got:
                     out.append(Violation('C19', 'placement', d, oa['t_us'], sig('predicted-but-not-requested', ns)))
                 elif got and not want:
                     out.append(Violation('C19', 'placement', d, oa['t_us'], sig('requested-but-predicted-unplaced', ns)))
